@@ -39,6 +39,7 @@ minimised history is the recorded witness.  `replay` runs the same minimisation 
 import copy
 import hashlib
 import itertools
+import json
 
 import cssutils
 import cssutils.profiles as cp
@@ -655,9 +656,15 @@ def _kinds(history):
 
 
 def _prov(res, f, case):
-    """provisional record; the final signature (essential kinds) is computed in the parent for the smallest witness of each group"""
+    """provisional record, grouped by (clause, symptom, seed, set of operation kinds, property names whose verdicts differ); the
+    final signature (essential set) is computed for the smallest witness of each group only - minimising every one of 10^4
+    witnesses costs more than the search.  The grouping never changes the verdict; it can merge two essential sets whose
+    witnesses share all of the group key (then the one of the smallest witness is reported)."""
     extra = case.get('probe', [''])[0] if case['kind'] == 'addremove' else ''
-    res.violation(f.clause, f'~prov|{f.symptom}|{case["history"][0][1]},{case["history"][0][2]}|{_kinds(case["history"])}|{extra}',
+    kinds = '+'.join(sorted({op[0] for op in case['history'][1:]}))
+    if isinstance(f.observed, list):
+        kinds += '|' + ','.join(sorted({d[1] for d in f.observed if isinstance(d, list) and len(d) == 5 and isinstance(d[1], str)}))
+    res.violation(f.clause, f'~prov|{f.symptom}|{case["history"][0][1]},{case["history"][0][2]}|{kinds}|{extra}',
                   dict(case, _symptom=f.symptom), f.expected, f.observed)
 
 
@@ -870,8 +877,17 @@ def judge_case(case, tier, clauses=None):
     return []
 
 
+_PERSIST = {}
+
+
 def _persists(case, tier, clause, symptom):
-    return any(f.clause == clause and f.symptom == symptom for f in judge_case(case, tier))
+    k = jdump(case)
+    got = _PERSIST.get(k)
+    if got is None:
+        if len(_PERSIST) > 20000:
+            _PERSIST.clear()
+        got = _PERSIST[k] = {(f.clause, f.symptom) for f in judge_case(case, tier)}
+    return (clause, symptom) in got
 
 
 def minimise(case, tier, clause, symptom):
@@ -988,7 +1004,7 @@ def finalize(payload, tier, seed):
                 for f in judge_case(case, tier):
                     if f.clause == 'C14.contents':
                         n += 1
-                        _final(res, tier, case, f)
+                        _prov(res, f, case)
             if not n:
                 res.error(f'contents seen with {len(payload[1])} observations, but none differs from the direct construction: {jdump(payload[1])[:300]}')
             return res
@@ -1028,12 +1044,16 @@ def run(ctx):
     conflicts = {ch: g for ch, g in groups.items() if len(g) > 1}
     total.counters['contents_seen_with_more_than_one_observation'] = len(conflicts)
     total.counters['contents_compared_pairwise'] = len(groups)
-    import json
+    # phase 1: which of the histories of a contents with several observations differ from its direct construction
     payloads = []
     for ch in sorted(conflicts):
         payloads.append(['contents', [json.loads(hj) for _, hj in sorted(conflicts[ch].values())]])
+    for r in ctx.map('finalize', payloads):
+        total.merge(r)
+    # phase 2: minimise the smallest witness of every provisional group -> final signatures
     prov, counts = total.violations, total.violation_counts
     total.violations, total.violation_counts = {}, type(counts)()
+    payloads = []
     for full in sorted(prov):
         v = prov[full]
         case = {k: x for k, x in v['case'].items() if not k.startswith('_')}
